@@ -332,7 +332,13 @@ async def run_xfer(ctx) -> None:
 
     deliveries: list[tuple[float, str, str]] = []  # (t_delivered, zone, version) of every RP|0404 fragment
 
+    acks: list[tuple] = []  # (t_delivered, zone, frag, t_of_the_W_it_answers): the controller's I|0404 acknowledgements
+
     def on_reply(rq_line, rep, lats):
+        if rq_line[:2] == " W" and rq_line[37:41] == "0404":
+            zz = "HW" if rq_line[48:50] == "23" else rq_line[46:48]
+            for lat in lats or []:
+                acks.append((loop.time() + lat, zz, rq_line[56:58], loop.time()))
         if rep[37:41] == "0404" and rep[:2] == "RP" and len(rep) > 60:  # (60 = the 7-byte 'no schedule' reply; a 1-byte fragment is 62)
             z = "HW" if rep[48:50] == "23" else rep[46:48]
             cur = (history.get(z) or [(0, None)])[-1][1]
@@ -361,6 +367,7 @@ async def run_xfer(ctx) -> None:
 
     results: dict[int, dict] = {}
     tasks: dict[int, asyncio.Task] = {}
+    stale_ack_zones: set[str] = set()
 
     async def do(o):
         await asyncio.sleep(max(0.0, t_start + o["at"] - loop.time()))
@@ -483,8 +490,14 @@ async def run_xfer(ctx) -> None:
         if ent["out"][0] == "ok" and o["op"] == "set":
             # a write that reports success has been taken by the controller (it held that schedule at some instant of the call)
             if not any(sv == ent.get("sched") and ent["call"] <= t <= ent["ret"] + 1e-9 for (t, sv) in history.get(o["zone"], [])):
-                ctx.violate("C18", "set_not_applied", "", f"set_schedule({o['zone']}) returned normally but the controller never "
-                            f"stored that schedule during the call (it holds {'another' if history.get(o['zone']) else 'no'} one)")
+                # an acknowledgement of an *earlier* write of this zone (same fragment number, delayed on the air) that arrives during
+                # this call is indistinguishable from this call's own: KF14
+                stale = any(zz == o["zone"] and ent["call"] <= td <= ent["ret"] and tw < ent["call"] for (td, zz, _f, tw) in acks)
+                if stale:
+                    stale_ack_zones.add(o["zone"])
+                ctx.violate("C18", "set_not_applied", "late_ack_of_previous_write" if stale else "", f"set_schedule({o['zone']}) returned "
+                            f"normally but the controller never stored that schedule during the call (it holds "
+                            f"{'another' if history.get(o['zone']) else 'no'} one)")
             else:
                 ctx.probe("set_applied")
         if ent["out"][0] == "ok" and o["op"] == "get":
@@ -558,6 +571,8 @@ async def run_xfer(ctx) -> None:
                 if not detail and hz and norm(res) not in {sv for (_t, sv) in hz} and any(
                         zz == z and ver != hz[-1][1] and hz[-1][0] < t <= loop.time() for (t, zz, ver) in deliveries):
                     detail = "old_fragment_after_change"  # ... stitched into the new version's fragment set (neither version comes out)
+                if not detail and z in stale_ack_zones:
+                    detail = "late_ack_of_previous_write"  # (the consequence of KF14: the library caches what it believes it wrote)
                 own = [e for e in results.values() if e["op"]["zone"] == z and e.get("sched") == norm(res) and e["ret"] is not None]
                 if not detail and own and any(own[-1]["call"] < t <= own[-1]["ret"] + 1e-9 and sv != norm(res)
                                               for (t, sv) in history.get(z, [])[1:]):
